@@ -525,6 +525,58 @@ fn marathon(invariants_mode: bool, rep: &mut Report) {
     }
 }
 
+/// One `Sign` object whose calls fail in the same way exactly k times in a row (k = 1..3, 62..66, 127..129, 255..257),
+/// followed by calls that meet a well-behaved sign: how often an object has failed must not change what it does next.
+fn failing_streaks(invariants_mode: bool, rep: &mut Report) {
+    let mut rng = Rng::new(0xC10_57EA);
+    let page = mk_pages(5, 1, &mut rng);
+    for k in [1usize, 2, 3, 62, 63, 64, 65, 66, 127, 128, 129, 255, 256, 257] {
+        // (operation that fails, position at which the failure is injected, the reply injected there)
+        let failures: [(Op, &'static str, u16); 6] = [
+            (Op::Configure, "reset_hello_1", SYM_BUS_ERROR),
+            (Op::Configure, "config_result_query", S_CFG_FAIL as u16), // every attempt fails: gives up after three
+            (Op::SendPages, "pixels_result_query", S_PIX_FAIL as u16),
+            (Op::SendPages, "pixels_request_ack", SYM_NONE),
+            (Op::Show, "switch_query", S_PIX_FAIL as u16),
+            (Op::LoadNext, "switch_request_ack", SYM_BUS_ERROR),
+        ];
+        for (fi, (fop, fpos, fsym)) in failures.iter().enumerate() {
+            let mut sess = Session::new(3, 2, 5).with_error_flavour((k + fi) as u8);
+            let mut ok = true;
+            for i in 0..k + 4 {
+                let failing = i < k;
+                let op = if failing { fop.clone() } else { [Op::Configure, Op::SendPages, Op::Show, Op::LoadNext][i - k].clone() };
+                let pages: &[Page<'static>] = if op == Op::SendPages { &page } else { &[] };
+                let (op2, fpos2, fsym2) = (op.clone(), *fpos, *fsym);
+                let mut visits: Vec<(&'static str, usize)> = vec![];
+                let pick = Box::new(move |_depth: usize, pos: &'static str| {
+                    let occ = match visits.iter_mut().find(|(n, _)| *n == pos) {
+                        Some((_, c)) => {
+                            *c += 1;
+                            *c - 1
+                        }
+                        None => {
+                            visits.push((pos, 1));
+                            0
+                        }
+                    };
+                    if failing && pos == fpos2 { fsym2 } else { proceed(&op2, pos, occ) }
+                });
+                let c = sess.call(&op, pages, vec![], 80, pick, false);
+                let before = rep.violations.len();
+                monitor(&c, 5, pages.len(), invariants_mode, rep);
+                if rep.violations.len() > before {
+                    ok = false;
+                    break;
+                }
+            }
+            if ok {
+                rep.count("failing_streaks_followed_by_ordinary_calls");
+            }
+        }
+    }
+}
+
 fn random_conversation(ctx: &Ctx, rng: &mut Rng, invariants_mode: bool, rep: &mut Report) {
     let ty = rng.usize(TYPES.len());
     let own = rng.edgy_u16();
@@ -642,6 +694,8 @@ pub fn run(ctx: &Ctx, invariants_mode: bool) -> Outcome {
             let mut rng = ctx.rng("random", (shard - nj) as u64);
             if shard == nj {
                 marathon(invariants_mode, rep);
+            } else if shard == nj + 1 {
+                failing_streaks(invariants_mode, rep);
             }
             for _ in 0..n_random / rand_shards as u64 {
                 random_conversation(ctx, &mut rng, invariants_mode, rep);
@@ -655,6 +709,7 @@ pub fn run(ctx: &Ctx, invariants_mode: bool) -> Outcome {
         floor("every DFS subtree enumerated to its end", report.get("dfs_subtrees_completed") == nj as u64, report.get("dfs_subtrees_completed")),
         floor("every canned earlier call performed, then every operation enumerated on the same Sign object", report.set_len("preludes_performed") >= PRELUDES.len() as u64 && report.get("conversations_with_a_reused_sign_object") > 100_000, format!("{} preludes, {} conversations", report.set_len("preludes_performed"), report.get("conversations_with_a_reused_sign_object"))),
         floor("bus errors of every kind (custom, io::Error Interrupted / TimedOut / WouldBlock, wrapped io::Error)", report.set_len("bus_error_flavours") == 6, report.set_len("bus_error_flavours")),
+        floor("calls that fail exactly k times in a row on one Sign object, then ordinary calls (14 counts x 6 kinds of failure)", report.get("failing_streaks_followed_by_ordinary_calls") == 84, report.get("failing_streaks_followed_by_ordinary_calls")),
         floor("one Sign object used for 70 000 calls", report.get("marathon_calls_on_one_sign_object") == 70_000, report.get("marathon_calls_on_one_sign_object")),
         floor("every reply symbol offered at every protocol position", n_positions >= 16 && cells == n_positions * N_SYMBOLS as u64, format!("{} cells over {} positions", cells, n_positions)),
         floor("ok / protocol error / bus error observed for every operation", (0..6u64).all(|o| (0..3u64).all(|k| report.sets.get("op_x_outcome").map(|s| s.contains(&(o * 4 + k))).unwrap_or(false))), report.set_len("op_x_outcome")),
